@@ -23,6 +23,9 @@ type c12Case[T any] struct {
 	valid func(v T) error
 	// heavy types get fewer values/mutants
 	weight int
+	// recogniser of the algebraic leaves (scalars / points) inside this type's encodings, for the
+	// structure-preserving value edits; nil: only integer and big-number leaves are edited
+	fam *c12LeafFamily
 }
 
 type c12Runner func(c *Ctx, r *Rng, scale int)
@@ -94,7 +97,7 @@ func c12Marshal[T any](v T) (out []byte, res string) {
 func c12RunCase[T any](c *Ctx, r *Rng, tc c12Case[T], scale int) {
 	nVals, nMut := 3*scale, 70*scale
 	if tc.weight > 1 {
-		nVals = max(1, nVals/tc.weight)
+		nVals = max(2, nVals/tc.weight)
 		nMut = max(20, nMut/tc.weight)
 	}
 	kinds := append(append([]string{}, c12ByteKinds...), c12TreeKinds...)
@@ -166,6 +169,14 @@ func c12RunCase[T any](c *Ctx, r *Rng, tc c12Case[T], scale int) {
 		}
 		if vi == 0 {
 			c12Direct(c, tc)
+		}
+		// structure-preserving value edits: every scalar / point / integer leaf, one at a time
+		perLeaf, sample := 2, 6
+		if scale > 1 {
+			perLeaf, sample = 0, 24
+		}
+		for _, m := range c12ValueEdits(r, b1, tc.fam, perLeaf, sample) {
+			c12Mutant1(c, tc, v, m)
 		}
 		for mi := 0; mi < nMut; mi++ {
 			kind := kinds[r.IntN(len(kinds))]
